@@ -20,7 +20,7 @@ ASSUMPTIONS = ["numpy; Hermite-Genocchi representation of the triple integral (p
                "models whose reference spectrum has two levels 1e-10..1e-6 apart are discarded (pomerol's absolute 1e-8 resonance/merge thresholds)",
                "tolerance |diff| <= 1e-8*(|ref| + beta^3 * sum_chains |M| (w1+w2+w3+w4)) -- no documented bound exists for chi; calibrated on the unchanged tree (max observed 1e-17 of that scale)"]
 CONFIG = {
-    "quick": {"flavours": ["real", "complex"], "shards": 8, "examples": 300, "min_nontrivial": 200, "budget_s": 120},
+    "quick": {"flavours": ["real", "complex"], "shards": 8, "examples": 900, "min_nontrivial": 200, "budget_s": 120},
     "thorough": {"flavours": ["real", "complex"], "shards": 16, "examples": 800, "min_nontrivial": 1500, "budget_s": 3300},
 }
 REQUIRED_CLASSES = {"quick": ["n1=n3", "n2=n3", "n1+n2=-1", "generic-triple", "purge", "empty-freq-list", "degenerate", "complex", ">=3-distinct-indices"],
